@@ -231,3 +231,82 @@ def dist_pp_3d(ctx):
         d = go.dist(geometer.Point(p[0], p[1], p[2]), geometer.Point(q[0], q[1], q[2]))
     want = sum((p[i] - q[i]) ** 2 for i in range(3))
     ctx.ensure("dist^2==cartesian", ctx.zero(_sq(ctx, d) - want, scale=None if ctx.symbolic else 1 + abs(want)))
+
+
+@case("C09", "dist.polytopes.lattice", [], kind="bounded",
+      functions=["geometer.operators.dist", "geometer.shapes.SegmentTensor.contains", "geometer.shapes.PolygonTensor.contains", "geometer.point.SubspaceTensor.project"],
+      bound="point-segment (2D: 6 segments x 49 grid points; 3D: 4 segments x 27 points), point-polygon (2D: 3 polygons incl. a non-convex one x 81 grid points, interior points included; "
+            "3D: the same polygons under 5 rigid motions x 36 points above/beside/in the plane), point-cuboid (exterior points), both argument orders; closed-form Euclidean oracle")
+def dist_polytopes_lattice(ctx):
+    import itertools
+    import math
+
+    import geometer as g
+    from geometer.operators import dist
+    from geometer.shapes import Segment, Polygon, Cuboid
+    from geometer.transformation import rotation, translation
+
+    def seg_dist(a, b, p):
+        a, b, p = (np.asarray(v, dtype=float) for v in (a, b, p))
+        t = np.dot(p - a, b - a) / np.dot(b - a, b - a)
+        t = min(1.0, max(0.0, t))
+        return float(np.linalg.norm(a + t * (b - a) - p))
+
+    def inside(vs, q):
+        # crossing number with boundary = inside
+        n = len(vs)
+        for i in range(n):
+            if seg_dist(vs[i], vs[(i + 1) % n], q) < 1e-12:
+                return True
+        c = False
+        for i in range(n):
+            (x1, y1), (x2, y2) = vs[i], vs[(i + 1) % n]
+            if (y1 > q[1]) != (y2 > q[1]) and q[0] < (x2 - x1) * (q[1] - y1) / (y2 - y1) + x1:
+                c = not c
+        return c
+
+    def poly_dist(vs, q):
+        if inside(vs, q):
+            return 0.0
+        return min(seg_dist(vs[i], vs[(i + 1) % len(vs)], q) for i in range(len(vs)))
+
+    grid = [x * 1.5 - 3 for x in range(7)]
+    for a, b in [((0, 0), (4, 0)), ((1, 1), (1, 5)), ((-2, 3), (3, -1)), ((0, 0), (3, 4)), ((2, 2), (-1, -3)), ((-3, -3), (-2.5, -3))]:
+        S = Segment(g.Point(*a), g.Point(*b))
+        for q in itertools.product(grid, repeat=2):
+            want = seg_dist(a, b, q)
+            got = [float(dist(S, g.Point(*q))), float(dist(g.Point(*q), S))]
+            ctx.ensure("point-segment-2d", all(abs(x - want) < 1e-7 * (1 + want) for x in got), witness=dict(segment=(a, b), point=q, got=got, want=want))
+    for a, b in [((0, 0, 0), (4, 0, 0)), ((1, 1, 1), (1, 5, -2)), ((-2, 3, 1), (3, -1, 2)), ((0, 0, 0), (2, 3, 6))]:
+        S = Segment(g.Point(*a), g.Point(*b))
+        for q in itertools.product((-2.0, 1.0, 3.5), repeat=3):
+            want = seg_dist(a, b, q)
+            got = [float(dist(S, g.Point(*q))), float(dist(g.Point(*q), S))]
+            ctx.ensure("point-segment-3d", all(abs(x - want) < 1e-7 * (1 + want) for x in got), witness=dict(segment=(a, b), point=q, got=got, want=want))
+    polys = [[(0, 0), (4, 0), (4, 4), (0, 4)], [(0, 0), (4, 1), (1, 4)], [(0, 0), (4, 0), (4, 4), (2, 1), (0, 4)]]
+    pgrid = [x - 2.0 for x in range(9)]
+    for vs in polys:
+        P = Polygon(*[g.Point(*v) for v in vs])
+        for q in itertools.product(pgrid, repeat=2):
+            want = poly_dist(vs, q)
+            got = [float(dist(P, g.Point(*q))), float(dist(g.Point(*q), P))]
+            ctx.ensure("point-polygon-2d(zero-inside)", all(abs(x - want) < 1e-7 * (1 + want) for x in got), witness=dict(polygon=vs, point=q, got=got, want=want))
+    motions = [translation(0, 0, 0), translation(1, 2, 3), rotation(0.7, axis=g.Point(1, 0, 0)), rotation(1.1, axis=g.Point(1, 2, 3)) * translation(0, 0, 2),
+               translation(5, -2, -2) * rotation(math.pi / 2, axis=g.Point(0, 1, 0))]
+    for vs in polys:
+        for mi, t in enumerate(motions):
+            P = t * Polygon(*[g.Point(x, y, 0) for x, y in vs])
+            for (x, y) in [(1, 1), (3, 0.5), (2, 2), (-1, 1), (5, 5), (0.5, 3.5), (4, 4), (2, 1), (6, 2)]:
+                for h in (0.0, 2.0, -1.5, 0.25):
+                    d2 = poly_dist(vs, (x, y))
+                    want = math.hypot(d2, h)
+                    q = t * g.Point(x, y, h)
+                    got = [float(np.real(dist(P, q))), float(np.real(dist(q, P)))]
+                    ctx.ensure("point-polygon-3d", all(abs(v - want) < 1e-6 * (1 + want) for v in got), witness=dict(polygon=vs, motion=mi, point=(x, y, h), got=got, want=want))
+    cube = Cuboid(g.Point(0, 0, 0), g.Point(2, 0, 0), g.Point(0, 2, 0), g.Point(0, 0, 2))
+    for q in itertools.product((-1.0, 1.0, 3.5), repeat=3):
+        if all(0 <= c <= 2 for c in q):
+            continue
+        want = math.sqrt(sum(max(0.0, -c, c - 2) ** 2 for c in q))
+        got = [float(np.real(dist(cube, g.Point(*q)))), float(np.real(dist(g.Point(*q), cube)))]
+        ctx.ensure("point-cuboid(exterior)", all(abs(v - want) < 1e-6 * (1 + want) for v in got), witness=dict(point=q, got=got, want=want))
